@@ -15,7 +15,7 @@ Ltac list_eq := repeat (apply (f_equal2 (@cons R)); [ | ]); try reflexivity.
 (* from E : e = 0 (e polynomial in the variables and sqrt 2) conclude that a rational expression vanishes:
    ideal membership modulo (sqrt 2)^2 = 2, found by nsatz *)
 Ltac vanish E :=
-  field_simplify_eq; [ | try exact sqrt2_neq0 ];
+  field_simplify_eq; [ | try exact sqrt2_neq0 .. ];
   revert E; generalize sqrt2_sq; generalize (sqrt 2);
   let q := fresh "q" in let Hq := fresh "Hq" in intros q Hq E; cbv [Rpow_def.pow] in *; timeout 120 nsatz.
 (* side conditions of field: sqrt 2 <> 0, numerals, or a denominator that vanishes only if a hypothesis
